@@ -131,8 +131,8 @@ def check(prog, rep, tier):
                 continue
             if r.final == r.pre or r.final in ('Idle', 'Connect', 'Active'):
                 continue
-            if ev == 'TCP_UP' and state not in ('Connect', 'Active'):
-                continue        # late connect: judged under C12/C13
+            if ev == 'TCP_UP2' or (ev == 'TCP_UP' and state not in ('Connect', 'Active')):
+                continue        # late / second connect: judged under C12/C13
             if ev == 'T_delay_open' and facts['dot_dead']:
                 continue
             prob = typestate_problem(r, ev, state)
